@@ -43,7 +43,7 @@ Qed.
 Lemma schedule_reg s i o w p wr : reg_inv s -> regok o -> reg_inv (fst (schedule s i o w p wr)).
 Proof.
   intros Hi Ho. unfold schedule.
-  assert (Hon : regok (if w then with_wr o (Some p) true true else with_rd o (Some p) true true)).
+  assert (Hon : regok (if w then with_wr o (Some (set_wrapped p wr)) true true else with_rd o (Some (set_wrapped p wr)) true true)).
   { destruct w; unfold regok; cbn; auto. }
   destruct (o_closed o); cbn [fst]; [apply reg_set_obj; assumption|].
   destruct (if w then o_evW o else o_evR o); cbn [fst]; [apply reg_set_obj; assumption|].
@@ -62,7 +62,7 @@ Proof.
   destruct (if w then sys_write o (op_len p - op_sofar p) else sys_read o (op_len p - op_sofar p)) as [o1 r].
   cbn [fst] in Ho1.
   destruct r.
-  - destruct (op_all p && negb (op_sofar p + n =? op_len p)); [apply IH|cbn [fst]]; apply reg_set_obj; assumption.
+  - destruct (op_all p && negb (op_sofar p + n =? op_len p) && negb (is_pkt o)); [apply IH|cbn [fst]]; apply reg_set_obj; assumption.
   - cbn [fst]. apply reg_set_obj; assumption.
   - apply schedule_reg; assumption.
   - cbn [fst]. apply reg_set_obj; assumption.
@@ -138,7 +138,7 @@ Proof.
   intros Hi. destruct a; cbn [do_action].
   - destruct (lookup o (l_objs s)) as [ob|] eqn:Hl; [|exact Hi].
     pose proof (objs_lookup regok _ _ _ Hi Hl) as Ho.
-    set (p := mkop cb all len 0).
+    set (p := mkop cb all len 0 false).
     set (o0 := if write then with_wr ob (Some p) (o_evW ob) (o_reg ob) else with_rd ob (Some p) (o_evR ob) (o_reg ob)).
     assert (Ho0 : regok o0) by (unfold o0; destruct write; apply (regok_bits ob); auto).
     assert (H0 : reg_inv (add_log s (LStart cb o write all len))) by (apply (reg_same_objs s); [reflexivity|exact Hi]).
